@@ -1,5 +1,5 @@
 SPECIFICATION GSpec
-CONSTANTS MaxSize = 6
+CONSTANTS MaxSize = 4
           MaxK = 6
           Slack = 2
           D = 3
